@@ -2,6 +2,7 @@ package main
 
 import (
 	"bytes"
+	crand "crypto/rand"
 
 	"google.golang.org/protobuf/proto"
 
@@ -870,6 +871,75 @@ func keOracle(r *rand.Rand, n int, tier string, infile string) (cases int, fails
 			bad("C03 an initiator took key 0 as its peer (hsIndex %d, canSend=%v, Deliver err=%v) from a RespHello that carries key 0's signature over the channel binding of ANOTHER handshake, presented by a party without key 0", I.VerifHsIndex(), I.VerifCanSend(), derr)
 		}
 	}
+	// C03: a signature made in ANOTHER ROLE. The adversary (no victim key) sends ONE InitHello — its own ephemeral key,
+	// the victim's genuine identity claim lifted from an InitHello of the victim's — both to the victim V (an honest
+	// responder, which answers with its signature over ITS handshake with that ephemeral) and to the target T. It then
+	// finishes the handshake with T as a raw Noise initiator and presents V's RespHello signature as the InitDone
+	// signature. T must not take key 0 as its peer: V signed as the responder of another handshake, not as T's initiator.
+	crossRoleCase := func() {
+		cases++
+		suite := noise.NewCipherSuite(noise.DH25519, noise.CipherChaChaPoly, noise.HashBLAKE2b)
+		Vi := newSess(true, 0, 1)
+		vh := Vi.Handshake(nil)
+		if len(vh) < 36 {
+			return
+		}
+		// both handshake states of the adversary draw the same ephemeral key (the library generates it from Config.Random)
+		var seed [64]byte
+		crand.Read(seed[:])
+		mk := func() (*noise.HandshakeState, []byte) {
+			hs, err := noise.NewHandshakeState(noise.Config{Initiator: true, Pattern: noise.HandshakeNN, CipherSuite: suite, Random: bytes.NewReader(seed[:])})
+			if err != nil {
+				return nil, nil
+			}
+			m, _, _, err := hs.WriteMessage([]byte{0, 0, 0, 0}, vh[36:])
+			if err != nil {
+				return nil, nil
+			}
+			return hs, m
+		}
+		hsV, m1 := mk()
+		hsT, m1b := mk()
+		if hsV == nil || hsT == nil || !bytes.Equal(m1, m1b) {
+			forgerBroken++
+			return
+		}
+		V := newSess(false, 0, 2)
+		_, rhV, err := V.Deliver(nil, m1, now)
+		if err != nil || len(rhV) < 4 {
+			return
+		}
+		payloadV, _, _, err := hsV.ReadMessage(nil, rhV[4:])
+		if err != nil {
+			forgerBroken++
+			return
+		}
+		var rh p2pke.RespHello
+		if proto.Unmarshal(payloadV, &rh) != nil || len(rh.Sig) == 0 {
+			forgerBroken++
+			return
+		}
+		T := newSess(false, 1, 3)
+		_, rhT, err := T.Deliver(nil, m1, now)
+		if err != nil || len(rhT) < 4 {
+			return
+		}
+		_, cs1, _, err := hsT.ReadMessage(nil, rhT[4:])
+		if err != nil || cs1 == nil {
+			forgerBroken++
+			return
+		}
+		body, err := proto.Marshal(&p2pke.InitDone{Sig: rh.Sig})
+		if err != nil {
+			return
+		}
+		hdr := []byte{0, 0, 0, 2}
+		initDone := cs1.Cipher().Encrypt(append([]byte{}, hdr...), 2, hdr, body)
+		_, _, derr := T.Deliver(nil, initDone, now)
+		if derr == nil || T.IsReady() || T.VerifCanSend() || T.VerifCanReceive() || T.VerifHsIndex() >= 2 {
+			bad("C03 a responder took key %s as its peer (hsIndex %d, ready=%v, Deliver err=%v) from an InitDone that carries key 0's signature made as the RESPONDER of another handshake (same InitHello, sent by a party without key 0 to both)", keyIndex(T.RemoteKey()), T.VerifHsIndex(), T.IsReady(), derr)
+		}
+	}
 	// C03: a signature made for ANOTHER PURPOSE. An InitHello travels in the clear and carries the sender's key and its
 	// signature over a time stamp. The adversary (no victim key) first lets the target verify the victim's genuine
 	// InitHello on its responder path, then answers the target's own InitHello as a raw Noise responder with its own
@@ -1137,7 +1207,7 @@ func keOracle(r *rand.Rand, n int, tier string, infile string) (cases int, fails
 				bad("C05 a channel whose predicate rejects the peer key holds an established session (rejecting side %d, lossy=%v)", rejectSide, lossy)
 			}
 			if len(rej.app) > 0 {
-				bad("C05 a channel whose predicate rejects the peer key delivered application data (rejecting side %d, lossy=%v)", rejectSide, lossy)
+				bad("C02,C05 a channel whose predicate rejects the peer key delivered application data (rejecting side %d, lossy=%v)", rejectSide, lossy)
 			}
 			if rk := rej.c.RemoteKey(); !rk.IsZero() {
 				bad("C05 a channel whose predicate rejects the peer key reports a remote key")
@@ -1300,6 +1370,7 @@ func keOracle(r *rand.Rand, n int, tier string, infile string) (cases int, fails
 			liarCase()
 			sigReplayCase()
 			crossPurposeCase()
+			crossRoleCase()
 			concurrentSendCase()
 			concurrentWaitersCase()
 			rekeyHijackCase()
